@@ -3,6 +3,7 @@ package conc
 import (
 	"encoding/json"
 	"fmt"
+	"github.com/getkin/kin-openapi/openapi3"
 	"hash/fnv"
 	"os"
 	"regexp"
@@ -204,6 +205,29 @@ func (Sim) Run(raw json.RawMessage, prop string, keep bool) (res simfw.Result) {
 	if err != nil {
 		res.Inconcl = "world: " + simfw.Trunc(err.Error(), 80)
 		return
+	}
+	if s.UniqueChecker == "panicky" {
+		// package configuration, fixed before the callers start (and for the run-alone baselines alike)
+		openapi3.RegisterArrayUniqueItemsChecker(func(items []any) bool {
+			seen := map[any]struct{}{}
+			for _, it := range items {
+				if _, dup := seen[it]; dup { // (panics when it is a map or a slice: unhashable)
+					return false
+				}
+				seen[it] = struct{}{}
+			}
+			return true
+		})
+		defer func() {
+			// back to the library's own checker: unregister, then let one sequential array validation
+			// reinstall the default (the library does that lazily; here, where nobody else is running)
+			openapi3.RegisterArrayUniqueItemsChecker(nil)
+			func() {
+				defer func() { recover() }()
+				openapi3.NewArraySchema().WithUniqueItems(true).VisitJSON([]any{1.0, 2.0})
+			}()
+		}()
+		res.Probe("custom-unique-items-checker")
 	}
 	sh := NewShared(w)
 	docBefore, _ := json.Marshal(w.Doc)
@@ -414,7 +438,13 @@ func (Sim) Run(raw json.RawMessage, prop string, keep bool) (res simfw.Result) {
 		}
 	}
 	if rep := newRaceReports(); rep != "" {
-		res.Inconcl = "harness-race: race report during the sequential baseline phase: " + simfw.Trunc(rep, 1500)
+		// a single call run alone raced: with the library's own frames in both stacks the library races with
+		// itself (a goroutine it started); anything else is the harness's trouble
+		if a, b, ok := ParseRace(rep); ok && a != "caller-owned-value" && b != "caller-owned-value" {
+			res.Violate(Prop, "race", fmt.Sprintf("%s/race:%s|%s", Prop, a, b), "data race inside a single call run alone (the library races with a goroutine of its own):\n"+simfw.Trunc(rep, 3000))
+		} else {
+			res.Inconcl = "harness-race: race report during the sequential baseline phase: " + simfw.Trunc(rep, 1500)
+		}
 	}
 	if len(res.Violations) > 0 {
 		b, _ := json.Marshal(explicit)
